@@ -42,14 +42,14 @@ ASSUMPTIONS = [
 MINIMUMS = {"monitor:cancel-honoured": 1000, "cancel_requests_too_late": 100, "monitor:terminates": 2000, "monitor:outcome": 1500, "timeouts_fired": 300, "caller_cancels_delivered": 200, "function_ended_cancelled": 50}
 JOBS = {"quick": 4, "thorough": 8}
 LEVEL_TEXT = (
-    "Every cell of the table durations {0,1,1.25,2} x outcomes {value, Exception, BaseException, self-cancel, ignores-first-cancel, cancelled-cleanup-raises} x "
+    "Every cell of the table durations {0,1,1.25,2} x outcomes {value, falsy value, Exception, falsy Exception, BaseException, self-cancel, ignores-first-cancel, cancelled-cleanup-raises} x "
     "timeouts {0.5..3} x caller-cancel instants {none, 0..3.5} x {scoped, unscoped} is run in exact virtual time and compared with the outcome table; "
     "a caller still waiting at loop quiescence is reported as a hang. Thorough adds two-phase functions and nested timeouts."
 )
 LEVEL_NOTE = "Trusted: VirtualLoop (exact time, quiescence = nothing can ever happen again), the outcome table in hv/props/c16.py. Real-time behaviour is out of scope."
 
 DURATIONS = (0.0, 1.0, 1.25, 2.0)
-OUTCOMES = ("value", "exception", "base", "selfcancel", "ignore1", "cleanupraise")
+OUTCOMES = ("value", "exception", "falsy-exception", "falsy-value", "base", "selfcancel", "ignore1", "cleanupraise")
 TIMEOUTS = (0.5, 1.0, 1.5, 2.0, 2.5, 3.0)
 CANCELS = (None, 0.0, 0.5, 1.0, 1.5, 2.0, 2.5, 3.0, 3.5)
 
@@ -62,6 +62,13 @@ class Boom(Exception):
     pass
 
 
+class EmptyProblems(Exception):
+    """an exception whose truth value is False (an aggregate error with zero collected items)"""
+
+    def __len__(self) -> int:
+        return 0
+
+
 def run_case(R: Recorder, case: dict[str, Any], verbose: bool = False) -> None:
     from haiway import ctx, timeout
 
@@ -70,8 +77,8 @@ def run_case(R: Recorder, case: dict[str, Any], verbose: bool = False) -> None:
     clock = VClock()
     t0 = clock.now
     fn: dict[str, Any] = {"cancel_seen_at": None, "finished_at": None, "started": False}
-    value_obj = ("value", object())
-    exc_obj = Boom("own")
+    value_obj: Any = ("value", object()) if outcome != "falsy-value" else []
+    exc_obj: BaseException = Boom("own") if outcome != "falsy-exception" else EmptyProblems()
     base_obj = Fatal("own-base")
     cleanup_obj = Boom("cleanup")
 
@@ -90,9 +97,9 @@ def run_case(R: Recorder, case: dict[str, Any], verbose: bool = False) -> None:
                 if outcome == "cleanupraise":
                     raise cleanup_obj from None
                 raise
-            if outcome in ("value", "ignore1", "cleanupraise"):
+            if outcome in ("value", "falsy-value", "ignore1", "cleanupraise"):
                 return value_obj
-            if outcome == "exception":
+            if outcome in ("exception", "falsy-exception"):
                 raise exc_obj
             if outcome == "base":
                 raise base_obj
@@ -104,7 +111,9 @@ def run_case(R: Recorder, case: dict[str, Any], verbose: bool = False) -> None:
 
     async def main(loop: Any) -> None:
         wrapped = timeout(T)(function)
-        if nested is not None:
+        if nested is not None and case.get("direct"):
+            wrapped = timeout(nested)(wrapped)  # the timeout wrapper applied directly to an already wrapped callable
+        elif nested is not None:
             inner = wrapped
 
             async def through(a: int, *, k: str) -> Any:
@@ -152,7 +161,7 @@ def run_case(R: Recorder, case: dict[str, Any], verbose: bool = False) -> None:
     # only a tie at the *first* instant matters: once one event strictly wins, later ones cannot change the caller's outcome
     tie = len(firsts) > 1
     first = firsts[0] if len(firsts) == 1 else "tie"
-    where = {"outcome": outcome, "first": first, "scoped": scoped, "nested": nested is not None}
+    where = {"outcome": outcome, "first": first, "scoped": scoped, "nested": ("direct" if case.get("direct") else True) if nested is not None else False}
     nontrivial = (not tie) and not (first == "d" and outcome == "value" and c is None)
     R.case(case, nontrivial=nontrivial)
     if verbose:
@@ -187,9 +196,9 @@ def run_case(R: Recorder, case: dict[str, Any], verbose: bool = False) -> None:
         return
     # -- outcome table -----------------------------------------------------------------------------
     if first == "d":
-        if outcome in ("value", "ignore1", "cleanupraise"):
+        if outcome in ("value", "falsy-value", "ignore1", "cleanupraise"):
             exp: tuple[str, Any] = ("value", value_obj)
-        elif outcome == "exception":
+        elif outcome in ("exception", "falsy-exception"):
             exp = ("raise", exc_obj)
         elif outcome == "base":
             exp = ("raise", base_obj)
@@ -237,6 +246,7 @@ def cases(tier: str):  # noqa: ANN201
     for d, outcome, T, c in itertools.product((1.0, 2.0), OUTCOMES, nested_T, (None, 0.5, 1.5) if tier == "quick" else CANCELS):
         for outer in (0.5, 1.5, 3.0):
             yield {"d": d, "outcome": outcome, "T": T, "c": c, "scoped": False, "nested": outer}
+            yield {"d": d, "outcome": outcome, "T": T, "c": c, "scoped": False, "nested": outer, "direct": True}
 
 
 def run(R: Recorder, tier: str, seed: int, shard: int, nshards: int) -> None:
